@@ -137,6 +137,28 @@ def gen_cases(tier, seed):
                       'nocc': nocc * (2 if square else 1),
                       'explicit': r.random() < 0.2,
                       'mseed': r.randrange(1 << 30)})
+    # fixed rank-(3,3) tensors with indices from three spaces (quick tier has no
+    # random (3,3) tensors): products of permutations of two spaces that leave the
+    # third untouched must be part of the symmetrisation (repaired defect F26)
+    d33 = {'t': 'anti', 'name': 'd', 'up': ['i', 'a', 'b'],
+           'lo': ['p', 'q', 'j'], 'bk': 0}
+    fixed = [
+        ('remove', [{'t': 'non', 'name': 'x',
+                     'up': ['i', 'a', 'b', 'p', 'q', 'j']}, d33], 1),
+        ('remove', [{'t': 'anti', 'name': 'f', 'up': ['a'], 'lo': ['b'],
+                     'bk': 0}, dict(d33, exp=2)], 2),
+        ('deriv', [{'t': 'non', 'name': 'x',
+                    'up': ['i', 'a', 'b', 'p', 'q', 'j']}, d33], 1),
+        ('remove', [{'t': 'non', 'name': 'y', 'up': ['i', 'j']},
+                    {'t': 'non', 'name': 'x', 'up': ['a', 'b', 'p', 'q']},
+                    d33], 1),
+    ]
+    for k, (op, objs, nocc) in enumerate(fixed):
+        cases.append({'id': f'C14-{tier[0]}{seed}-d33-{k}-{op}', 'op': op,
+                      'terms': [{'pref': '1/2', 'objs': objs}], 'targets': [],
+                      'tname': 'd', 'tkind': 'anti', 'nu': 3, 'nl': 3, 'bk': 0,
+                      'spin': False, 'nocc': nocc, 'explicit': False,
+                      'mseed': 4242 + k, 'cost': 50})
     return cases
 
 
